@@ -172,6 +172,17 @@ class Sender:
         self.member_rows = [r for r in rows if r.exit == "backedge" and not self._calls(r, new_id)
                             and (not isinstance(r.site, tuple) or fx.root_fn(r.site[0]) == fx.root_fn(self.fn["id"]) or r.site[0] in getattr(fx, "new_helpers", ()))]
         self.emit_rows = [r for r in rows if self._calls(r, new_id)]
+        # a filtering adaptor in front of the loop reports a dropped element once per consumer step: identical rows are one row
+        uniq, seen_rows = [], set()
+        for r in self.member_rows:
+            cl = [e[1] for e in r.calls()]
+            nx = max([i for i, n in enumerate(cl) if n.endswith("::next")] or [-1])
+            k = (tuple(sym.fmt_cond(c) for c in r.cond), tuple(cl[nx + 1:]),      # what the iteration does once it has its element
+                 tuple((sym.fmt_root(e[1]), str(e[2]), sym.fmt(e[3])) for e in r.events if e[0] == "write"))
+            if k not in seen_rows:
+                seen_rows.add(k)
+                uniq.append(r)
+        self.member_rows = uniq
         if not self.member_rows:
             raise ModelError("compute_delta/no-member-loop", "no per-member loop found before the serializer is created",
                              where(self.fn))
